@@ -254,14 +254,20 @@ func contractPostStep(w *World, st *Step) {
 		return
 	}
 	before := readStor(w)
-	for _, n := range w.nodes {
+	merkle, size := f.Merkle, int64(len(f.Data))
+	act := func(n *Node) error {
 		ctx, write := w.ctxOf(n).CacheContext()
 		k := n.app.StorageKeeper
-		msg := &storagetypes.MsgPostFile{Creator: cr.Bech, Merkle: f.Merkle, FileSize: int64(len(f.Data)), MaxProofs: 3, Note: "{}"}
+		msg := &storagetypes.MsgPostFile{Creator: cr.Bech, Merkle: merkle, FileSize: size, MaxProofs: 3, Note: "{}"}
 		err := wasmbinding.PerformPostFile(&k, ctx, c.Addr, msg)
 		if err == nil {
 			write()
 		}
+		return err
+	}
+	w.journal = append(w.journal, func(n *Node) { _ = act(n) })
+	for _, n := range w.nodes {
+		err := act(n)
 		if n == w.node() {
 			if c.Bech != cr.Bech {
 				w.Probe("contract_post_as_other_attempt")
